@@ -81,6 +81,10 @@ Definition self_tref (k : kind) (img : list byte) : tref :=
                | None => None
                end |}.
 
+(* a boxed (dynamically sized) tag: one block of size_of_val bytes, allocated and freed with alignment 8 *)
+Definition box_line (img : list byte) : string :=
+  line "box" ("alloc=" ++ sN (len img) ++ ",8 dealloc=" ++ sN (len img) ++ ",8").
+
 Definition run_ctor (p : profile) (id : N) (args : list arg) : list string :=
   let r := run_ctor_img p id args in
   line "ctor" (sRes sImg r)
@@ -89,8 +93,9 @@ Definition run_ctor (p : profile) (id : N) (args : list arg) : list string :=
          if (id <=? 21) || (id =? 23) then
            let k := if id =? 23 then KEfiMmap else nth_kind id in
            let m := {| m_base := 0; m_bytes := img |} in
-           (line "as_bytes" (sRes (fun b => sN (len b)) (as_bytes 0 img)) :: lines_kind p k m (self_tref k img))%list
-         else []
+           (line "as_bytes" (sRes (fun b => sN (len b)) (as_bytes 0 img)) :: lines_kind p k m (self_tref k img)
+            ++ (match sd_tail (kind_struct k) with Some _ => [box_line img] | None => [] end))%list
+         else [box_line img]
      | _ => []
      end.
 
@@ -126,7 +131,8 @@ Definition run_hctor (p : profile) (id : N) (place : N) (args : list arg) : list
          let k := nth_hkind id in
          let m := {| m_base := 0; m_bytes := img |} in
          let t := {| t_off := 0; t_meta := match k with HkInfoReq => Some ((le (slice img 4 4) - 8) / 4) | _ => None end |} in
-         (line "as_bytes" (sRes (fun b => sN (len b)) (as_bytes (align_up place (sd_align (hkind_struct k))) img)) :: hlines_kind k m t)%list
+         (line "as_bytes" (sRes (fun b => sN (len b)) (as_bytes (align_up place (sd_align (hkind_struct k))) img)) :: hlines_kind k m t
+          ++ match k with HkInfoReq => [box_line img] | _ => [] end)%list
      | _ => []
      end.
 
